@@ -160,6 +160,7 @@ def c02(ctx: Ctx) -> None:
     ctx.rule('C02-R5', 'every concrete OS lock is exclusive, non-blocking iff block is false, and uses flock / msvcrt.locking', 2)
     ctx.rule('C02-R6', 'release(): OS lock dropped before the thread lock; unlock and close apply to the swapped-out descriptor', 2)
     ctx.rule('C02-R7', 'the result of acquire() is never dropped at a call site inside the package', 2)
+    ctx.rule('C02-R8', 'a function that both acquires and releases reaches release() only through the success edge of its own acquire()', 1)
     # R1/R2 via the affine interpreter
     try:
         it, outs = run_acquire(ctx, r)
@@ -313,6 +314,40 @@ def c02(ctx: Ctx) -> None:
                       'a failed acquire raises before the protected region is entered',
                       'after a failed acquire the protected region is still entered',
                       witness=render(g, w), construct=ck)
+    # R9: flock excludes only contenders that opened the same inode
+    ctx.rule('C02-R9', 'the lock file is never unlinked / renamed / replaced (all contenders lock the same inode)', 1)
+    hits = [h for h in soft_lock_hits(r.unit.tree, r.unit.aliases)
+            if h[1] in ('os.unlink', 'os.remove', '.unlink', 'shutil.rmtree', 'os.rename', 'os.replace', '.rename', '.replace', 'shutil.move')]
+    ctx.check('C02-R9', f'{FILE}: unlink/rename calls: {[h[1] for h in hits]}', f'{FILE}:{hits[0][0] if hits else 1}', not hits,
+              'the path always names the inode the holder locked',
+              'after an unlink the holder keeps its lock on the orphaned inode while the next contender creates and locks a fresh file: two holders',
+              construct=construct_key(FILE, 'unlinks lock file', sorted({h[1] for h in hits})))
+    # R8: a function that acquires and releases may release only what it acquired
+    for f in p.all_functions():
+        if f in (r.acquire, r.release) or f.unit.rel != FILE:
+            continue
+        g = build(f, p)
+        acqs = [n for n in g.nodes if n.kind == 'call' and callee_info(g, n.ast)['kind'] == 'package'
+                and r.acquire in callee_info(g, n.ast).get('scopes', [])]
+        rels = [n for n in g.nodes if n.kind == 'call' and callee_info(g, n.ast)['kind'] == 'package'
+                and r.release in callee_info(g, n.ast).get('scopes', [])]
+        if not acqs or not rels:
+            continue
+        succ_edges = set()
+        for a in acqs:
+            br = [x for x in g.nodes if x.kind == 'branch' and x.meta['test'] is a.ast]
+            par = parent(a.ast)
+            if not br and isinstance(par, ast.Assign) and len(par.targets) == 1 and isinstance(par.targets[0], ast.Name):
+                br = [x for x in g.nodes if x.kind == 'branch' and isinstance(x.meta['test'], ast.Name) and x.meta['test'].id == par.targets[0].id]
+            for b in br:
+                succ_edges |= {id(e) for e in g.succ[b.id] if e.label == 'true'}
+        for rel in rels:
+            w = find_path(g, [g.entry], [rel], edge_ok=lambda e: id(e) not in succ_edges)
+            ctx.check('C02-R8', f'{f.qualname}: {norm(rel.ast)} only after its own successful acquire', g.loc(rel), w is None and bool(succ_edges),
+                      'the release is reachable only through the success edge of this function\'s acquire',
+                      'after a failed (timed-out / non-blocking) acquire this function still calls release(): it unlocks and closes the '
+                      'descriptor of the thread that really holds the lock, letting a third contender in',
+                      witness=render(g, w), construct=construct_key(f.qualname, 'release without own acquire'))
     r.publish(ctx)
 
 
